@@ -19,6 +19,10 @@ pub enum Op {
     /// a record (payload of this many bytes) whose own write is made to fail (injected I/O error
     /// at the hook point "write"): nothing of it reaches the file, the writer keeps running
     FailWrite(usize),
+    /// the current file is renamed to a name outside the family by someone else, then
+    /// reopen_output() is called (log rotation by an external tool): the writer continues in a
+    /// fresh file at the original path
+    MoveAwayAndReopen,
 }
 
 /// record lengths biased to the boundaries that matter: the size limit `n` (line ending
@@ -81,6 +85,7 @@ pub fn ops_strat_f(
     ];
     if with_failures {
         opts.push((1, len_strat(n, cap, le).prop_map(Op::FailWrite).boxed()));
+        opts.push((1, Just(Op::MoveAwayAndReopen).boxed()));
     }
     if with_time {
         opts.push((4, crate::vtime::advance_ms_strat().prop_map(Op::Advance).boxed()));
@@ -100,6 +105,10 @@ pub struct Exec<'a> {
     /// the hooks have counted every hit of the point "write" since the case began (fault mode):
     /// lets an async writer thread be waited for, so that a failing write can be placed exactly
     pub count_writes: bool,
+    /// number of current files moved away externally
+    pub moved: u32,
+    /// the log directory (known to the engines that allow external manipulations inside a run)
+    pub dir: Option<std::path::PathBuf>,
 }
 
 impl<'a> Exec<'a> {
@@ -118,6 +127,8 @@ impl<'a> Exec<'a> {
             virt,
             failed_writes: 0,
             count_writes: false,
+            moved: 0,
+            dir: None,
         }
     }
 
@@ -183,6 +194,29 @@ impl<'a> Exec<'a> {
                 }
                 hh.set_mode(prev);
                 self.failed_writes += 1;
+            }
+            Op::MoveAwayAndReopen => {
+                // only once the writer has opened its file, only in sync modes (the writer
+                // thread of an async mode may still hold queued records), and not for namings
+                // that write directly to a numbered/timestamped file (their current file is found
+                // through the listing)
+                if !self.model.initialized || self.cfg.mode.is_async() || self.cfg.nam().is_some_and(|n| !n.rename_style()) {
+                    return Ok(());
+                }
+                sess.flush();
+                let Some(dir) = self.dir.clone() else {
+                    return Ok(());
+                };
+                let snap = crate::observe::snapshot(&dir);
+                let fam = crate::observe::family(self.cfg, &snap).map_err(|e| format!("family: {e}"))?;
+                let Some(cur) = fam.iter().find(|f| matches!(f.parsed.kind, crate::observe::Kind::Current | crate::observe::Kind::Plain)) else {
+                    return Ok(());
+                };
+                self.moved += 1;
+                std::fs::rename(dir.join(&cur.name), dir.join(format!("moved-away-{}.bak", self.moved))).map_err(|e| format!("external rename: {e}"))?;
+                sess.reopen().map_err(|e| format!("reopen_output failed: {e}"))?;
+                let now = self.now();
+                self.model.current_moved_away(now);
             }
             Op::Rotate => {
                 let now = self.now();
